@@ -1,10 +1,10 @@
 package main
 
 import (
-	"strings"
 	"encoding/json"
 	"os"
 	"sort"
+	"strings"
 	"time"
 )
 
@@ -179,7 +179,16 @@ func seqProfile0(prop, tier string) *SeqProfile {
 	case "C01":
 		g.TimeMode = "any"
 		return &SeqProfile{Prop: prop, Gen: g, NRandom: tierN(tier, 400, 40000), Module: "TraceAbs.tla", Cfg: "TraceAbs.cfg",
-			Obs:  Obs{Scan: true, Next: true, Maxes: []int64{1, 2, 3, 32}, JudgeOpen: true},
+			Obs: Obs{Scan: true, Next: true, Maxes: []int64{1, 2, 3, 32}, JudgeOpen: true},
+			Hist: func(id int, seed int64) *History {
+				gg := g
+				if id%10 == 9 { // bodies beyond 64 KiB (the reader's large-record path), several per segment and per scan batch
+					gg.VLens = []int{66000, 66000, 70000, 65505, 3, 20, 0}
+					gg.Rollovers = []int64{150000, 400000, 1000}
+					gg.Steps, gg.MaxBatch = 12, 3
+				}
+				return genHistory(id, seed, gg)
+			},
 			Rule: "C01: after every step of every history the full cursor scan must equal the abstract live sequence.",
 		}
 	case "C02":
@@ -205,18 +214,27 @@ func seqProfile0(prop, tier string) *SeqProfile {
 		g.KeyPool = []string{"n", "a", "b", "c", "e", "f", "g", "l"}
 		q := []string{"n", "a", "b", "c", "d", "e", "f", "g", "l", "p"}
 		return &SeqProfile{Prop: prop, Gen: g, NRandom: tierN(tier, 200, 6000), Module: "TraceAbs.tla", Cfg: "TraceAbs.cfg",
-			Obs:  Obs{Key: true, KeyQ: q, Maxes: []int64{1, 2, 40}},
-			Hist: func(id int, seed int64) *History { gg := g; gg.IndexCfg = []int{1, 1, 3, 3, 0, 2}[id%6]; return genHistory(id, seed, gg) },
+			Obs: Obs{Key: true, KeyQ: q, Maxes: []int64{1, 2, 40}},
+			Hist: func(id int, seed int64) *History {
+				gg := g
+				gg.IndexCfg = []int{1, 1, 3, 3, 0, 2}[id%6]
+				return genHistory(id, seed, gg)
+			},
 			Rule: "C09: GetByKey/OffsetByKey for every key of the query set (incl. absent keys colliding with present ones) and ConsumeByKey for every cursor offset, after every step; keys a/b, c/d, e/f are real FNV-1a-64 collisions.",
 		}
 	case "C10":
 		g.TimeMode = "mono"
 		return &SeqProfile{Prop: prop, Gen: g, NRandom: tierN(tier, 250, 15000), Module: "TraceAbs.tla", Cfg: "TraceAbs.cfg",
-			Obs:  Obs{Time: true},
+			Obs: Obs{Time: true},
 			Hist: func(id int, seed int64) *History {
 				gg := g
 				gg.IndexCfg = []int{2, 3, 2, 3, 0, 1}[id%6]
 				gg.Epoch0 = id%2 == 1 // half of the histories use times next to the Unix epoch (absolute values smaller than the offsets)
+				if id%5 == 4 {        // long segments (dozens of messages each, long runs of equal times): out of reach of the small scope
+					gg.Rollovers = []int64{4000, 100000}
+					gg.MaxBatch, gg.WPublish, gg.WDelete, gg.WDeleteMulti = 8, 70, 8, 2
+					gg.VLens = []int{0, 1, 3, 8}
+				}
 				return genHistory(id, seed, gg)
 			},
 			Rule: "C10: GetByTime/OffsetByTime at every microsecond from 2 before the first to 2 after the last published time, after every step; times never decrease and contain equal runs.",
@@ -272,16 +290,16 @@ func seqProfile0(prop, tier string) *SeqProfile {
 					Note: "negative control: counting the user after releasing the read lock lets GC unmap a handle in use"},
 				{Module: "Reader.tla", Cfg: "reader_no_recheck.cfg", Workers: 4, Timeout: 5 * time.Minute, Expect: "NoLeak",
 					Note: "negative control: without the second look under the write lock two loaders leak a mapping"}},
-			Extra: runC08,
-			Rule: "C08: a case is one concurrent history of the real code, built with the race detector: (i) seeded free-running mixes (2-5 goroutines x 3-8 calls of Publish, Consume, Get, GetByKey, ConsumeByKey, GetByTime, Delete, Sync, NextOffset, Stat, GC on prepared small-rollover logs with holes, warm and cold readers, KeepRewriteVersion on/off), (ii) window placement: a call A (Publish with/without rollover, Delete in head/reader segment, Consume with reader load, GC) is held at one of 19 pause points and two further calls run inside the window (or block on A's locks), then a closing scan. TLC (TraceLin) searches a linearization of every history against KlevAbs; a data race report of the race detector is a violation of its own.",
+			Extra:  runC08,
+			Rule:   "C08: a case is one concurrent history of the real code, built with the race detector: (i) seeded free-running mixes (2-5 goroutines x 3-8 calls of Publish, Consume, Get, GetByKey, ConsumeByKey, GetByTime, Delete, Sync, NextOffset, Stat, GC on prepared small-rollover logs with holes, warm and cold readers, KeepRewriteVersion on/off), (ii) window placement: a call A (Publish with/without rollover, Delete in head/reader segment, Consume with reader load, GC) is held at one of 19 pause points and two further calls run inside the window (or block on A's locks), then a closing scan. TLC (TraceLin) searches a linearization of every history against KlevAbs; a data race report of the race detector is a violation of its own.",
 			Assume: []string{"the Go race detector decides data-race freedom on the schedules that occur", "a call that does not finish within 25 ms inside a window is classified as blocked and stays pending until the window closes"},
 		}
 	case "C18":
 		return &SeqProfile{Prop: prop, NRandom: 0, Module: "TraceNotifyFinal.tla", Cfg: "TraceNotifyFinal.cfg",
 			Design: []DesignRun{{Module: "MCNotify.tla", Cfg: "notify_q.cfg", Workers: 8, Timeout: 10 * time.Minute,
 				Note: "Notify.tla: NoLostWakeup, Caused, TokenMutex and liveness under weak fairness (3 waiters below/at/above, 2 setters, Close, 1 cancel)"}},
-			Extra: runNotify,
-			Rule: "C18: (i) TLC-generated schedules of Notify.tla (one shortest schedule per distinct model state, seeded stride in quick) are stepped through the real pkg/notify.Offset goroutine by goroutine via the notify.* pause points; at quiescence TLC judges which waiters returned with what and which are still blocked (TraceNotifyFinal); the step-by-step trace is validated against Notify.tla for drift only; (ii) free-running mixes of up to 8 waiters, setters, Close and cancels; (iii) phase scenarios on OpenBlocking: immediate returns below NextOffset / relative offsets equal Consume, waiters at and beyond NextOffset stay blocked, are woken by a passing Publish with Consume's result, cancel, Close, wait after Close.",
+			Extra:  runNotify,
+			Rule:   "C18: (i) TLC-generated schedules of Notify.tla (one shortest schedule per distinct model state, seeded stride in quick) are stepped through the real pkg/notify.Offset goroutine by goroutine via the notify.* pause points; at quiescence TLC judges which waiters returned with what and which are still blocked (TraceNotifyFinal); the step-by-step trace is validated against Notify.tla for drift only; (ii) free-running mixes of up to 8 waiters, setters, Close and cancels; (iii) phase scenarios on OpenBlocking: immediate returns below NextOffset / relative offsets equal Consume, waiters at and beyond NextOffset stay blocked, are woken by a passing Publish with Consume's result, cancel, Close, wait after Close.",
 			Assume: []string{"'stays blocked' is a bounded-time observation (15-40 ms); 'wakes' allows 5 s"},
 		}
 	case "C19":
@@ -350,23 +368,23 @@ func seqProfile0(prop, tier string) *SeqProfile {
 				c := &crashRunner{r: r, h: h, tw: tw, root: root, torn: tierS(r.Tier, "classes", "all"), depth2: !ploss, plossOn: ploss, crashOn: !ploss}
 				c.run()
 			},
-			Rule: "a case is one crash / power-loss image of a tapped real run: the directory after every file-system step of every operation (create, header, record/item append, fsync, rename, remove, dirsync), the interrupted append cut at byte positions (classes in quick, every byte in thorough), for C05 also the directory after every step of the recovery itself (depth 2), for C06 every file cut back between its fsynced and its written length; each image is opened by the real code with Recover, observed (scan, Get sweep, key/time lookups, Stat), recovered again (bytes unchanged), appended to and Checked; TLC judges CrashRecoverOK / PowerLossOK.",
+			Rule:   "a case is one crash / power-loss image of a tapped real run: the directory after every file-system step of every operation (create, header, record/item append, fsync, rename, remove, dirsync), the interrupted append cut at byte positions (classes in quick, every byte in thorough), for C05 also the directory after every step of the recovery itself (depth 2), for C06 every file cut back between its fsynced and its written length; each image is opened by the real code with Recover, observed (scan, Get sweep, key/time lookups, Stat), recovered again (bytes unchanged), appended to and Checked; TLC judges CrashRecoverOK / PowerLossOK.",
 			Assume: []string{"8-byte file headers are written atomically", "directory operations are durable in program order", "the tap reports every file-system mutation (a missing call site would hide crash points, not raise alarms)"},
 		}
 	case "C07":
 		return &SeqProfile{Prop: prop, NRandom: 0, Module: "TraceFrames.tla", Cfg: "TraceFrames.cfg",
 			Design: []DesignRun{{Module: "Frames.tla", Cfg: "frames.cfg", Workers: 4, Timeout: 5 * time.Minute,
 				Note: "Frames.tla: Recover/Check operators against RecoverOK/CheckOK for every (n, junk class, index class)"}},
-			Extra: runFrames,
-			Rule: "C07: a case is one damaged head segment (log bytes + index bytes); for each: Check, Recover, Check, Recover again, reopen+append, Check; the reference codec projects the files before/after to (valid records, junk class, index class) and TLC judges RecoverOK / CheckOK. Enumerated: every truncation length (0, >=8), every byte position (bit flip) after the header, zero/0xFF/random tails of every length, index missing / truncated at every length / every byte changed / extra items, x four index configurations, V2 (V1: truncation and index damage only).",
+			Extra:  runFrames,
+			Rule:   "C07: a case is one damaged head segment (log bytes + index bytes); for each: Check, Recover, Check, Recover again, reopen+append, Check; the reference codec projects the files before/after to (valid records, junk class, index class) and TLC judges RecoverOK / CheckOK. Enumerated: every truncation length (0, >=8), every byte position (bit flip) after the header, zero/0xFF/random tails of every length, index missing / truncated at every length / every byte changed / extra items, x four index configurations, V2 (V1: truncation and index damage only).",
 			Assume: []string{"the reference parser defines which records are valid"},
 		}
 	case "C14":
 		return &SeqProfile{Prop: prop, NRandom: 0, Module: "TraceFrames.tla", Cfg: "TraceFrames.cfg",
 			Design: []DesignRun{{Module: "Frames.tla", Cfg: "frames.cfg", Workers: 4, Timeout: 5 * time.Minute,
 				Note: "Frames.tla: NeverJunk (a read never returns what the scanner classifies as junk)"}},
-			Extra: runC14,
-			Rule: "C14: a case is one damage (bit flip / 1-8 byte overwrite / truncation / zero-filled tail at a position of one segment log file of a 3-segment V2 log with a hole, colliding keys and an equal-time run across a boundary) x mode (reopen, live with cold or warm readers); for each the full query list (Consume and Get at every offset, GetByKey/ConsumeByKey for every key incl. colliding and absent, GetByTime at 1us steps) is run in a single-threaded child process and every answer is judged by TLC with DamagedReadOK and AllocOK (bytes allocated by the call).",
+			Extra:  runC14,
+			Rule:   "C14: a case is one damage (bit flip / 1-8 byte overwrite / truncation / zero-filled tail at a position of one segment log file of a 3-segment V2 log with a hole, colliding keys and an equal-time run across a boundary) x mode (reopen, live with cold or warm readers); for each the full query list (Consume and Get at every offset, GetByKey/ConsumeByKey for every key incl. colliding and absent, GetByTime at 1us steps) is run in a single-threaded child process and every answer is judged by TLC with DamagedReadOK and AllocOK (bytes allocated by the call).",
 			Assume: []string{"truncation is only applied before opening: cutting a file short under a live mmap raises SIGBUS in any mmap reader", "which files a call reads is derived from the documented access pattern (conservative: 'other file only' is asserted only for answers that carry data)"},
 		}
 	case "C15":
